@@ -562,13 +562,16 @@ func checkC20(c *lib.Ctx) {
 			b, _ := json.Marshal(c20Case{Op: p.op.Name, Opt: p.variant, Idx: -1, Mut: c20Mut{Base: "valid", Kind: "none"}})
 			dryCases = append(dryCases, b)
 		}
-		results, deaths, err := cliRunPool("c20", nil, dryCases, workers, 90*time.Second, nil)
+		results, deaths, err := cliRunPoolC("c20", nil, dryCases, workers, 90*time.Second, nil, func(i int) string { return "c20/" + pairs[i].op.Name })
 		if err != nil {
 			r.Fail(lib.Failure{Kind: "tie", Key: "child-start", What: err.Error()})
 			return
 		}
 		dry := map[string]c20Res{}
 		for i, p := range pairs {
+			if deaths[i] == cliNotRun {
+				continue
+			}
 			op := p.op
 			okey := cliOpKey(op.Name, p.variant)
 			none := c20Case{Op: op.Name, Opt: p.variant, Idx: -1}
@@ -604,7 +607,7 @@ func checkC20(c *lib.Ctx) {
 	for i, cs := range cases {
 		raws[i], _ = json.Marshal(cs)
 	}
-	results, deaths, err := cliRunPool("c20", nil, raws, workers, 90*time.Second, nil)
+	results, deaths, err := cliRunPoolC("c20", nil, raws, workers, 90*time.Second, nil, func(i int) string { return "c20/" + cases[i].Op })
 	if err != nil {
 		r.Fail(lib.Failure{Kind: "tie", Key: "child-start", What: err.Error()})
 		return
@@ -618,6 +621,9 @@ func checkC20(c *lib.Ctx) {
 	var maxAlloc uint64
 	unreached := 0
 	for i, cs := range cases {
+		if deaths[i] == cliNotRun {
+			continue
+		}
 		if i == selftest {
 			if d := deaths[i]; d != nil && d.Why == "panic" && d.Confirmed {
 				r.Note("self-test passed: a panic in a background goroutine of a child is observed (%s)", d.Head)
